@@ -39,10 +39,18 @@ INFO = {
  'C19-a': ('C19', "verify_synced() added to send_transaction", "sync flag on and announced headers more than 2 above the tip", 'trap-instead-of-error'),
  'C19-b': ('C19', "consensus_decode instead of deserialize", "valid transaction followed by trailing bytes", 'accepted-when-it-must-not'),
  'C20-a': ('C20', "reference count `+= 1` on merge", "parent and child transaction in one block, the same pair also mined on a competing fork", 'tx-out-count-wrong'),
+ 'C08-c': ('C08', "OP_RETURN outputs filtered before `.skip(start_idx)` in insert_outputs", "transaction with an OP_RETURN output followed by ordinary outputs, pause inside its outputs after the OP_RETURN", 'sliced-differs-from-unsliced'),
+ 'C08-d': ('C08', "`serde(skip)` on the delta's derived indexes", "same-block create-and-spend, pause between creation and spend, upgrade during the pause", 'heartbeat-trap'),
+ 'C09-c': ('C09', "tree flattening emits children in reverse order", "two forks tied on difficulty and length, an odd number of upgrades, then a query", 'after-upgrade / answers-changed-by-upgrade'),
+ 'C09-d': ('C09', "post_upgrade clears the fee percentile cache", "fees evaluated, their blocks stabilise (only coinbase blocks unstable), upgrade, query", 'fee-percentiles-changed-by-upgrade'),
+ 'C13-c': ('C13', "non-fetching heartbeat drops the stored partial response", "partial reply, heartbeat suspended on a follow-up, a second heartbeat (or syncing disabled) runs the processing step", 'stored-response-mismatch'),
+ 'C13-d': ('C13', "follow-up handler counts remaining_follow_ups down while the request builder treats it as the total", "a block split over 4 or more pages", 'heartbeat-trap / bad-follow-up-index'),
+ 'C20-c': ('C20', "remove_from_cache follows a single branch of the discarded tree", "a pop whose discarded part is not a simple chain (two discarded children, or a discarded fork that forks again)", 'block-body-leaked'),
+ 'C20-d': ('C20', "stale stable height passed to pop on the un-sliced path", "announced header whose block never arrives, anchor advancing to exactly that height without slicing", 'announced-header-leaked'),
  'C20-b': ('C20', "discarded fork cleaned only one level deep", "a discarded fork of at least two blocks", 'tx-out-leaked'),
 }
 confirm = {}
-for f in ['/var/tmp/confirm_batch1.log', '/var/tmp/confirm_batch2.log', '/var/tmp/confirm_batch3.log']:
+for f in ['/var/tmp/confirm_batch1.log', '/var/tmp/confirm_batch2.log', '/var/tmp/confirm_batch3.log', '/var/tmp/confirm_batch4.log']:
     if os.path.exists(f):
         for line in open(f):
             m = re.match(r'RESULT (\S+) (\S+) demo-filter=(\S+) with-patch:failed=(\d+),ok=(\d+) without-patch:failed=(\d+),ok=(\d+)', line)
@@ -88,4 +96,31 @@ for mid, (prop, what, needs, kind) in sorted(INFO.items()):
     }
     json.dump(meta, open(f'{d}/meta.json', 'w'), indent=1)
     kept.append(mid)
+# reverts of the fix: commits (my own, not independent): each must be reported again
+REV = {
+ 'revert-S1': ('C01', 'reverse of the fix for the prefix-colliding address scan'),
+ 'revert-S2': ('C01', 'reverse of the fix for the height of a transaction confirmed on two forks'),
+ 'revert-S3': ('C02', 'reverse of the fix for the unfiltered walk stopping at a negative stability count'),
+ 'revert-S4': ('C05', 'reverse of the fix making get_balance use the stability cut'),
+ 'revert-S5': ('C07', 'reverse of the fix for the duplicated anchor header during paused ingestion'),
+ 'revert-S8': ('C13', 'reverse of the fix for Partial{remaining_follow_ups: 0}'),
+ 'revert-S9': ('C19', 'reverse of the fix rejecting trailing bytes in send_transaction'),
+ 'revert-S10': ('C06', 'reverse of the fix ordering unstable outputs like the stable index'),
+ 'revert-KF3': ('C03', 'reverse of the fix popping the ingested anchor after a threshold raise'),
+}
+for rid, (prop, what) in REV.items():
+    src = f'{SRC}/reverts/{rid}'
+    if not os.path.isdir(src):
+        continue
+    d = f'{DST}/{rid}'
+    os.makedirs(d, exist_ok=True)
+    shutil.copy(f'{src}/patch.diff', f'{d}/patch.diff')
+    json.dump({
+        'id': rid, 'property': prop, 'change': what,
+        'origin': 'git diff <fix commit> <fix commit>~1 in /repo (not independent of the machinery: it is the defect the simulator found)',
+        'needs_to_manifest': 'see the fix commit message in /repo and DESIGN.md 13.3',
+        'confirmed_by_me': {'how': 'the pinned suite passed on the tree before the fix (it is the original code); the demonstration is the minimised replay the simulator produced', 'what_i_ran': f'scripts/try_mutant.sh /verif/seeded/{rid} {prop} quick  -> VIOLATION property={prop}'},
+        'detected_by': {'check': f'./check {prop} quick'},
+    }, open(f'{d}/meta.json', 'w'), indent=1)
+    kept.append(rid)
 print('kept', len(kept), kept)
